@@ -27,6 +27,13 @@ func wrapRun(prop string, extra func(c *core.Ctx)) {
 }
 
 func init() {
+	wrapRun("C11", func(c *core.Ctx) {
+		if c.CountRule("R11e") == 0 {
+			c11QueryWrappers(c)
+			c.Floor("R11e", 1, "append in MatchAll")
+			c.Floor("R11f", 3, "loadXPathExpr (2) + stream-reader constructors")
+		}
+	})
 	wrapRun("C03", func(c *core.Ctx) {
 		if c.CountRule("K10") == 0 {
 			c03NoReadRecursion(c)
@@ -68,6 +75,19 @@ func init() {
 	control(Control{ID: "c05-matcher-reads-io-state", Prop: "C05", File: "extensions/omniv21/fileformat/flatfile/hierarchyReader.go",
 		Old: "\tcur = r.shrinkStack()\n\tif cur.curChild < len(cur.recDecl.ChildDecls())-1 {", New: "\tcur = r.shrinkStack()\n\tif r.target == nil && r.r != nil && cur.curChild < len(cur.recDecl.ChildDecls())-1 {",
 		Rule: "R05f", Substr: "recNext", Why: "sibling advance depends on reader state outside the declaration stack"})
+	control(Control{ID: "c11-matchall-dedups", Prop: "C11", File: "idr/query.go",
+		Old: "\tfor iter.MoveNext() {\n\t\tret = append(ret, nodeFromIter(iter))\n\t}", New: "\tfor iter.MoveNext() {\n\t\tif n := nodeFromIter(iter); len(ret) == 0 || ret[len(ret)-1] != n {\n\t\t\tret = append(ret, n)\n\t\t}\n\t}",
+		Rule: "R11e", Substr: "MatchAll", Why: "parent/ancestor steps legitimately yield a node once per input node"})
+	control(Control{ID: "c11-expr-normalised", Prop: "C11", File: "idr/query.go",
+		Old: "\t\texpr, err = caches.GetXPathExpr(exprStr)", New: "\t\texpr, err = caches.GetXPathExpr(strings.Join(strings.Fields(exprStr), \" \"))",
+		Rule: "R11f", Substr: "loadXPathExpr", Why: "whitespace inside string literals of predicates is rewritten"})
+	control(Control{ID: "c09-own-split-func", Prop: "C09", File: "extensions/omniv21/fileformat/edi/reader2.go",
+		Old: "func (r *NonValidatingReader) Read() (RawSeg, error) {\n", New: "func (r *NonValidatingReader) resplit() {\n\tr.scanner.Split(bufio.ScanLines)\n}\n\nfunc (r *NonValidatingReader) Read() (RawSeg, error) {\n",
+		Rule: "R09f", Substr: "resplit", Why: "hand-installed split function"})
+	control(Control{ID: "c14-shared-digest", Prop: "C14", File: "customfuncs/customFuncs.go",
+		Old:  "func UUIDv3(_ *transformctx.Ctx, s string) (string, error) {\n\treturn uuid.NewMD5(uuid.Nil, []byte(s)).String(), nil",
+		New:  "var uuidv3Hash = md5.New()\n\nfunc UUIDv3(_ *transformctx.Ctx, s string) (string, error) {\n\treturn uuid.NewHash(uuidv3Hash, uuid.Nil, []byte(s), 3).String(), nil",
+		Rule: "R14b", Substr: "uuidv3Hash", Why: "one digest object shared by every checksum computation"})
 	control(Control{ID: "c15-vm-dirty-after-error", Prop: "C15", File: "extensions/omniv21/customfuncs/javascript.go",
 		Old: "\t\t\tfor arg := range args {\n\t\t\t\t_ = vm.GlobalObject().Delete(arg)\n\t\t\t}", New: "\t\t\t_ = vm.GlobalObject().Delete(argNameNode)",
 		Rule: "R15g", Substr: "execProgram", Why: "script arguments of an earlier transform stay visible in the pooled VM"})
@@ -304,6 +324,21 @@ func c09RawReads(c *core.Ctx) {
 		}
 	}
 	c.OK("R09d", "no hand-written io.Reader in library code", 0, fmt.Sprintf("%d implementation(s)", m))
+	// R09f: hand-written bufio.SplitFunc / Scanner.Split in library code (tokenisation across refills is delegated to the
+	// go-corelib scanners; a stateful split function can lose context at a chunk boundary)
+	k := 0
+	for _, f := range c.RepoFunctions() {
+		if core.IsCLIOrSample(core.FuncPkg(f)) {
+			continue
+		}
+		for _, ci := range core.Calls(f) {
+			if o := core.CalleeObj(ci); o != nil && o.Pkg() != nil && o.Pkg().Path() == "bufio" && core.FuncName(o) == "Scanner.Split" {
+				k++
+				c.Unknown("R09f", core.FuncKey(f)+" installs a split function", core.InstrPos(ci), "library code installs its own bufio split function: whether it keeps the right context when a token straddles a buffer refill cannot be shown by this analysis")
+			}
+		}
+	}
+	c.OK("R09f", "no hand-written split function in library code", 0, fmt.Sprintf("%d call(s) of bufio.Scanner.Split", k))
 }
 
 // ---------------------------------------------------------------- R16e
@@ -831,6 +866,157 @@ func blockHasEffect(b *ssa.BasicBlock) bool {
 					return true // methods (Builder.Write…) have effects
 				}
 				continue
+			}
+			return true
+		}
+	}
+	return false
+}
+
+// ---------------------------------------------------------------- R11e / R11f (C11): query wrappers are transparent
+
+// c11QueryWrappers: R11e — MatchAll collects every node the engine yields: the append of the iterator's current node is
+// control-dependent only on MoveNext() (no de-duplication or filtering in the wrapper). R11f — the expression string
+// handed to the xpath compiler (directly or through the go-corelib cache) is the wrapper's own parameter, untransformed.
+func c11QueryWrappers(c *core.Ctx) {
+	p := c.Pkg("idr")
+	if p == nil {
+		c.Unresolved("R11e", "package idr", "not loaded")
+		return
+	}
+	// R11f
+	n := 0
+	for _, f := range c.RepoFunctions() {
+		if core.FuncPkg(f) != p.Types {
+			continue
+		}
+		for _, ci := range core.Calls(f) {
+			isCompile := core.IsCallTo(ci, "github.com/antchfx/xpath", "Compile") || core.IsCallTo(ci, "github.com/jf-tech/go-corelib/caches", "GetXPathExpr")
+			if !isCompile {
+				continue
+			}
+			n++
+			key := core.FuncKey(f) + " compiles expression"
+			ok := c11ExprFromParam(ci.Common().Args[0], p.Types, map[ssa.Value]bool{})
+			c.Check(ok, "R11f", key, core.InstrPos(ci), "the compiled string is the caller's expression (at most trimmed at both ends)", "the xpath expression is rewritten before it is compiled: string literals inside predicates may change (e.g. whitespace normalisation), so the query differs from the one the reference engine evaluates")
+		}
+	}
+	if n == 0 {
+		c.Unresolved("R11f", "xpath compile sites", "none found in package idr")
+	}
+	// R11e
+	m := 0
+	for _, name := range []string{"MatchAll"} {
+		f := c.Func("idr", name)
+		if f == nil {
+			c.Unresolved("R11e", "idr."+name, "exported query wrapper not found")
+			continue
+		}
+		for _, b := range f.Blocks {
+			for _, in := range b.Instrs {
+				call, ok := in.(*ssa.Call)
+				if !ok {
+					continue
+				}
+				bn, ok := call.Call.Value.(*ssa.Builtin)
+				if !ok || bn.Name() != "append" {
+					continue
+				}
+				m++
+				key := core.FuncKey(f) + " collects results"
+				// walk up the dominator tree: every If on the way must test a MoveNext() result
+				bad := ""
+				for d := b; d != nil; d = d.Idom() {
+					id := d.Idom()
+					if id == nil {
+						break
+					}
+					ifi, ok := id.Instrs[len(id.Instrs)-1].(*ssa.If)
+					if !ok || id.Succs[0] == id.Succs[1] {
+						continue
+					}
+					// is d on exactly one side of the branch?
+					side0, side1 := id.Succs[0] == d || id.Succs[0].Dominates(d), id.Succs[1] == d || id.Succs[1].Dominates(d)
+					if side0 == side1 {
+						continue
+					}
+					cond := ifi.Cond
+					isMoveNext := false
+					if cc, ok := cond.(*ssa.Call); ok && core.IsCallTo(cc, "github.com/antchfx/xpath", "NodeIterator.MoveNext") {
+						isMoveNext = true
+					}
+					isErrTest := false
+					if bo, ok := cond.(*ssa.BinOp); ok && (core.IsNilConst(bo.X) || core.IsNilConst(bo.Y)) && (isErrorT(bo.X.Type()) || isErrorT(bo.Y.Type())) {
+						isErrTest = true
+					}
+					isDotTest := false
+					if bo, ok := cond.(*ssa.BinOp); ok && bo.Op == token.EQL {
+						if _, isC := bo.Y.(*ssa.Const); isC {
+							if _, isP := bo.X.(*ssa.Parameter); isP {
+								isDotTest = true // the "." shortcut on the expression parameter
+							}
+						}
+					}
+					if !isMoveNext && !isErrTest && !isDotTest {
+						bad = "a condition other than MoveNext()"
+					}
+				}
+				c.Check(bad == "", "R11e", key, core.InstrPos(call), "every node the iterator yields is appended", "collecting a result node depends on "+bad+": nodes the engine yields are filtered or de-duplicated by the wrapper, so the node sequence differs from the reference")
+			}
+		}
+	}
+	if m == 0 {
+		c.Unresolved("R11e", "result collection", "no append found in idr.MatchAll")
+	}
+}
+
+// c11ExprFromParam: v is the function's own string parameter, possibly trimmed at both ends (strings.TrimSpace), held in
+// a local/captured variable, merged by a phi, or passed through a helper of the same package (the filter splitter).
+// Cyclic derivations through a re-assigned variable (x = TrimSpace(x)) are resolved coinductively.
+func c11ExprFromParam(v ssa.Value, pkg *types.Package, seen map[ssa.Value]bool) bool {
+	if seen[v] {
+		return true
+	}
+	seen[v] = true
+	switch x := v.(type) {
+	case *ssa.Parameter:
+		return true
+	case *ssa.Call:
+		if core.IsCallTo(x, "strings", "TrimSpace") {
+			return c11ExprFromParam(x.Call.Args[0], pkg, seen)
+		}
+		if cf := x.Call.StaticCallee(); cf != nil && core.FuncPkg(cf) == pkg && len(x.Call.Args) == 1 {
+			return c11ExprFromParam(x.Call.Args[0], pkg, seen)
+		}
+	case *ssa.Phi:
+		for _, e := range x.Edges {
+			if !c11ExprFromParam(e, pkg, seen) {
+				return false
+			}
+		}
+		return len(x.Edges) > 0
+	case *ssa.UnOp:
+		if x.Op == token.MUL {
+			var cell *ssa.Alloc
+			switch a := x.X.(type) {
+			case *ssa.Alloc:
+				cell = a
+			case *ssa.FreeVar:
+				if b, ok := closureBinding(x.Parent(), a).(*ssa.Alloc); ok {
+					cell = b
+				}
+			}
+			if cell == nil {
+				return false
+			}
+			sts := storesToCell(cell)
+			if len(sts) == 0 {
+				return false
+			}
+			for _, st := range sts {
+				if !c11ExprFromParam(st.Val, pkg, seen) {
+					return false
+				}
 			}
 			return true
 		}
